@@ -148,6 +148,15 @@ func (t *Transaction) With(name string, readOnly bool, createFn func() (Cachable
 		 * scrapped or not by the previous write owner.
 		 */
 		cacheToUse := existingCache
+		/* If this transaction already holds the write lock on a cache with this
+		 * name, it keeps working on that one. The entry in the manager may have
+		 * been pruned and re-created by someone else in the meantime, and that
+		 * new entry is not locked by us. */
+		t.mu.Lock()
+		if written, ok := t.writtenCaches[name]; ok {
+			cacheToUse = written
+		}
+		t.mu.Unlock()
 		if readOnly {
 			// Do we already have a write lock on this cache? If we do we can
 			// let other go routines on the same transaction to concurrently
